@@ -139,9 +139,18 @@ func readRecordHeaderV4(reader *checksumByteReader) (payloadSizeUncompressed uin
 		return 0, 0, false, err
 	}
 
+	checksumStart := reader.Count()
 	expectedChecksum, err := readHeaderUvarint(reader)
 	if err != nil {
 		return 0, 0, false, err
+	}
+
+	// the checksum does not cover its own bytes, so only its canonical (shortest) encoding is accepted. Otherwise
+	// a flipped continuation bit on its last byte silently swallows a following zero byte of the payload.
+	var canonical [binary.MaxVarintLen64]byte
+	if reader.Count()-checksumStart != binary.PutUvarint(canonical[:], expectedChecksum) {
+		return 0, 0, false,
+			fmt.Errorf("%w: checksum [%x] is not canonically encoded", HeaderChecksumMismatchErr, expectedChecksum)
 	}
 
 	if actualChecksum != expectedChecksum {
